@@ -1,0 +1,16 @@
+//go:build verif
+
+package v1alpha1
+
+// Contracts for fvc (see /verif/DESIGN.md). Comment-only file.
+
+//@ pure JobPhase.IsTerminal(p JobPhase) bool =
+//@     p == JobSucceeded || p == JobFailed || p == JobKilled || p == JobAdmissionError || p == JobFinishedUnknown
+
+//@ func JobPhase.IsTerminal
+//@   ensures [C05,C06,C11] result == p.IsTerminal()
+
+//@ pure ConcurrencySpec.GetMaxConcurrency(c ConcurrencySpec) int64 = c.MaxConcurrency != nil ? *c.MaxConcurrency : 1
+
+//@ func ConcurrencySpec.GetMaxConcurrency
+//@   ensures [C05,C06] result == c.GetMaxConcurrency()
